@@ -215,7 +215,8 @@ func c06Generate(c *Ctx) {
 	if !c.complete(ex, rule, role, fn) {
 		return
 	}
-	okLen, okEnt, okSig := true, true, true
+	okLen, okEnt, okSig, okCfg := true, true, true, true
+	var wCfg *Path
 	var wLen, wEnt, wSig *Path
 	whySig := ""
 	nS := 0
@@ -226,6 +227,27 @@ func c06Generate(c *Ctx) {
 			lo, _ := p.IntBoundsAt(rb, a)
 			if v, isC := a.IntConst(); !(isC && v >= 32) && !(lo != nil && *lo >= 32) {
 				okEnt, wEnt = false, p
+			}
+			// ... and for at least the configured entropy: the amount is the configured value, or the
+			// floor on a path where the configured value is known to be below the floor
+			cfgEnt := func(s *Term) bool { return s.IsCall(".GetTokenEntropy") }
+			if !a.Mentions(cfgEnt) {
+				below := false
+				for _, f := range p.Facts[:min(rb.NFacts, len(p.Facts))] {
+					if f.Atom.Kind == "LT" && f.Pol && f.Atom.A.Mentions(cfgEnt) {
+						if k, isK := f.Atom.B.IntConst(); isK && k <= 32 {
+							below = true
+						}
+					}
+					if f.Atom.Kind == "LT" && !f.Pol && f.Atom.B.Mentions(cfgEnt) {
+						if k, isK := f.Atom.A.IntConst(); isK && k < 32 {
+							below = true
+						}
+					}
+				}
+				if !below {
+					okCfg, wCfg = false, p
+				}
 			}
 		}
 		if p.Kind != "return" || len(p.Rets) != 3 || !(p.Rets[2].Op == "nil" || p.IsNil(p.Rets[2])) {
@@ -266,6 +288,7 @@ func c06Generate(c *Ctx) {
 		}
 	}
 	c.Check(okLen && nS > 0, rule, role, fn, "secret-length", "Generate succeeds only with a global secret of at least 32 bytes", "success without len(secret) >= 32", wLen)
+	c.Check(okCfg, rule, role, fn, "entropy-configured", "the random source is asked for the configured entropy (the floor only where the configured value is below it)", "RandomBytes is called with an amount that does not derive from GetTokenEntropy although the configured value is not known to be below the floor", wCfg)
 	c.Check(okEnt, rule, role, fn, "entropy-clamp", "the random source is asked for at least 32 bytes (configured entropy clamped from below)", "RandomBytes can be called with fewer than 32 bytes", wEnt)
 	c.Check(okSig, rule, role, fn, "token-shape", "the returned token is <random part>.<MAC of that random part> and the returned signature is that MAC", whySig, wSig)
 }
